@@ -95,6 +95,23 @@ def stepLine (d : DSt) (line : String) : DSt × String :=
       let r := step d.s (.send true u)
       (⟨r.1, ids⟩, obs r.1 (r.2.filter fun o => visible ids o && o != .written u))
     | none => (d, "bad-op")
+  | ["auto", u] =>
+    -- a stanza the client sends by itself (initial presence): the same numbered path as `send`; its report is not observable
+    match parseUp u with
+    | some u =>
+      let ids := d.s.nextId :: d.iqIds
+      let r := step d.s (.send true u)
+      (⟨r.1, ids⟩, obs r.1 (r.2.filter fun o => visible ids o && o != .written u))
+    | none => (d, "bad-op")
+  | ["recvReq", u] =>
+    -- an IQ request is received (counted like any iq stanza) and the client answers it by itself (`autoReply` = `send`)
+    match parseUp u with
+    | some u =>
+      let r0 := step d.s (.recv .iq)
+      let ids := r0.1.nextId :: d.iqIds
+      let r := step r0.1 (.send true u)
+      (⟨r.1, ids⟩, obs r.1 ((r0.2 ++ r.2).filter fun o => visible ids o && o != .written u))
+    | none => (d, "bad-op")
   | ["recv", "iqr"] | ["recv", "iqe"] =>
     let r := step d.s (.recv .iq)
     (⟨r.1, d.iqIds⟩, obs r.1 (r.2.filter (visible d.iqIds)))
